@@ -13,25 +13,29 @@ def _ilm_pred(tree, name):
     body = strip_doc(f.body)
     # (normalised spelling: `True if x is None else x in m` is written `x is None or x in m`)
     PIN, RIN = "pred_label is None or pred_label in self.labelmap", "ref_label is None or ref_label in self.labelmap.values()"
-    if len(body) == 3:
-        b = [ast.unparse(s) for s in body]
-        if b[0] != "pred_in = " + PIN:
-            raise Refuse(name + ": " + b[0])
-        if b[1] != "ref_in = " + RIN:
-            raise Refuse(name + ": " + b[1])
-        r = body[2]
-    elif len(body) == 1:
-        # normalised spelling: the two memberships are written inside the return
-        r, cnt = fold(body[0], {PIN: "pred_in", RIN: "ref_in"})
-        if cnt != {"pred_in": 1, "ref_in": 1}:
-            raise Refuse(name + ": " + ast.unparse(body[0]))
-    else:
-        raise Refuse(name + " body")
-    if not isinstance(r, ast.Return):
-        raise Refuse(name + " return")
-    t, ty = Tr({"pred_in": ("pin", "bool"), "ref_in": ("rin", "bool")}).expr(r.value)
-    if ty != "bool":
-        raise Refuse(name + " type")
+    # the two membership tests may be bound to names first or written where they are used, and the result may be returned through
+    # early returns (`if not pred_in: return False`): the body is read as a decision tree over (pred_in, ref_in); both tests are pure
+    tr = Tr({"pred_in": ("pin", "bool"), "ref_in": ("rin", "bool")})
+
+    def interp(stmts):
+        if not stmts:
+            raise Refuse(name + ": a path ends without a return")
+        st, _ = fold(stmts[0], {PIN: "pred_in", RIN: "ref_in"})
+        if isinstance(st, ast.Return) and st.value is not None:
+            t, ty = tr.expr(st.value)
+            if ty != "bool":
+                raise Refuse(name + " type")
+            return t
+        if isinstance(st, ast.Assign) and len(st.targets) == 1 and isinstance(st.targets[0], ast.Name) and isinstance(st.value, ast.Name) \
+                and st.targets[0].id == st.value.id and st.value.id in ("pred_in", "ref_in"):
+            return interp(stmts[1:])
+        if isinstance(st, ast.If):
+            c, ty = tr.expr(st.test)
+            if ty != "bool":
+                raise Refuse(name + " test type")
+            return f"(if {c} then {interp(list(stmts[0].body))} else {interp(list(stmts[0].orelse) + list(stmts[1:]))})"
+        raise Refuse(name + " body: " + ast.unparse(stmts[0])[:80])
+    t = interp(list(body))
     if [a.arg for a in f.args.args] != ["self", "pred_label", "ref_label"]:
         raise Refuse(name + " signature")
     return t
@@ -106,8 +110,9 @@ def matcher_loop():
     f = find_func(fn, "_calc_matching_metric_of_overlapping_labels")
     src = ast.unparse(f)
     if "return sorted(mm_pairs, key=lambda x: x[0], reverse=not matching_metric.decreasing)" not in src \
-            and "mm_pairs = sorted(mm_pairs, key=lambda x: x[0], reverse=not matching_metric.decreasing)\n    return mm_pairs" not in src:
-        raise Refuse("sort call")
+            and "mm_pairs = sorted(mm_pairs, key=lambda x: x[0], reverse=not matching_metric.decreasing)\n    return mm_pairs" not in src \
+            and "mm_pairs.sort(key=lambda x: x[0], reverse=not matching_metric.decreasing)\n    return mm_pairs" not in src:
+        raise Refuse("sort call")       # list.sort and sorted are the same stable sort
     if "mm_values = pool.starmap(matching_metric.value, instance_pairs)" not in src:
         raise Refuse("starmap call")
     call_ = "_calc_overlapping_labels(prediction_arr=prediction_arr, reference_arr=reference_arr, ref_labels=ref_labels)"
@@ -116,8 +121,9 @@ def matcher_loop():
             and f"instance_pairs = [(reference_arr, prediction_arr, ref_label, pred_label) for ref_label, pred_label in {call_}]" not in src:
         raise Refuse("instance_pairs")
     # the scores are paired with the labels of the SAME candidate, in candidate order (either spelling)
+    import re
     if "mm_pairs = [(i, (instance_pairs[idx][2], instance_pairs[idx][3])) for idx, i in enumerate(mm_values)]" not in src \
-            and "mm_pairs = [(score, (pair[2], pair[3])) for score, pair in zip(mm_values, instance_pairs)]" not in src:
+            and not re.search(r"mm_pairs = \[\((\w+), \((\w+)\[2\], \2\[3\]\)\) for \1, \2 in zip\(mm_values, instance_pairs\)\]", src):
         raise Refuse("mm_pairs")
     out.append("Definition gen_sort_best_first_stable : bool := true.")
     # ---- pair code
@@ -140,8 +146,10 @@ def matcher_loop():
             "missed_pred_labels = [p for p in pred_labels if p not in pred_labelmap]",
             "for p in missed_pred_labels:\n        pred_labelmap[p] = label_counter\n        label_counter += 1",
             "prediction_arr_relabeled = _map_labels(prediction_arr, pred_labelmap)"]
+    alt = {"for p in missed_pred_labels:\n        pred_labelmap[p] = label_counter\n        label_counter += 1":
+           "for new_label, p in enumerate(missed_pred_labels, start=label_counter):\n        pred_labelmap[p] = new_label"}
     for n in need:
-        if n not in src:
+        if n not in src and not (n in alt and alt[n] in src):
             raise Refuse("map_instance_labels: missing `" + n.split("\n")[0] + "`")
     out.append("Definition gen_fresh_start (maxref : Z) : Z := maxref + 1.")
     f = find_func(fn, "_map_labels")
